@@ -535,6 +535,8 @@ def run(ctx):
         n = int(rng.integers(1, 9))
         if law in ('divseq', 'powseq', 'prodseq', 'mulseq', 'antiseq'):
             m = int(rng.integers(2, 5))
+            if rng.random() < 0.12:         # long sequences (a batch path, a periodic renormalisation would show here)
+                m = int([16, 17, 33, 64, 65, 100][rng.integers(6)])
             xs = [operand(rng, c) for _ in range(m)]
             ys = [operand(rng, c) for _ in range(m if rng.random() < 0.5 else 1)]
             if law in ('divseq', 'mulseq', 'antiseq') and rng.random() < 0.3:
